@@ -72,8 +72,8 @@ func coResume(L *LState) int {
 		L.Push(LString(msg))
 		return 2
 	}
-	th.Parent = L
-	L.G.CurrentThread = th
+	// moving the arguments and entering the body can raise (registry overflow): the thread switch is
+	// recorded only once they have succeeded, so that a failure leaves the coroutine suspended
 	if !th.isStarted() {
 		cf := th.stack.Last()
 		th.currentFrame = cf
@@ -92,6 +92,8 @@ func coResume(L *LState) int {
 			th.reg.SetTop(base + th.yieldNRet)
 		}
 	}
+	th.Parent = L
+	L.G.CurrentThread = th
 	top := L.GetTop()
 	threadRun(th)
 	return L.GetTop() - top
